@@ -133,6 +133,8 @@ package xmpp
 //@   ghost firstErr error
 //@   callsite (encoding/xml.TokenReader).Token#1
 //@     after: firstErr = ret1
+// (start elements produced by an XML decoder have a non-empty local name)
+//@     assume[C06] typeof(ret0) == xml.StartElement ==> ret0.(xml.StartElement).Name.Local != ""
 // C08: keep-alives are ignored without invoking the handler, anything that is
 // neither an element nor character data ends the session with an error, and
 // the own address a stanza's from attribute is compared with is the bare one
@@ -146,6 +148,11 @@ package xmpp
 // get/set requests always go to the handler
 //@   callsite mellium.im/xmlstream.Inner#1
 //@     assert[C07,C06] typ == "result" || typ == "error"
+// C06: a reply is handed to a waiting caller only if the table holds its id
+// and the stanza name is the registered one (or its empty-namespace form);
+// the handler is not invoked for it
+//@     assert[C06] ok && has(s.sentStanzas, id) && (readerChan.stanzaName == start.Name || (readerChan.stanzaName.Space == "" && readerChan.stanzaName.Local == start.Name.Local))
+//@     assert[C06] handlerCalls == 0
 //@   callsite (xmpp.Handler).HandleXMPP#1
 //@     assert[C07] rw.id == id && !rw.wroteResp && rw.level == 0
 //@     assert[C07] iqOk == iqName(start.Name)
@@ -805,3 +812,13 @@ package xmpp
 //@     invariant[C05] len(attrs) <= rangeindex + 1 && len(attrs) >= 0 && samearray(attrs, tok.Attr) && cap(attrs) >= len(tok.Attr)
 //@     invariant[C05] old(se.depth) == 0 && stanzaName(t.(xml.StartElement).Name) ==> (exists j int :: 0 <= j && j < len(attrs) && isID(attrs[j])) || (exists j int :: rangeindex < j && j < len(tok.Attr) && isID(tok.Attr[j]))
 //@     invariant[C05,thorough] old(se.depth) == 0 && stanzaName(t.(xml.StartElement).Name) && fromStr != "" ==> (exists j int :: 0 <= j && j < len(attrs) && isFrom(attrs[j])) || (exists j int :: rangeindex < j && j < len(tok.Attr) && isFrom(tok.Attr[j]))
+
+// ---------------------------------------------------------------------------
+// C06 (sequential facet): the correlation table around a blocking send. The
+// entry for the id is in the table, with the stanza name and the caller's
+// context, before the stanza is sent, and it is gone on every exit.
+//@ func (*Session).sendResp
+//@   callsite (*Session).SendElement#1
+//@     assert[C06] has(s.sentStanzas, id) && s.sentStanzas[id].stanzaName == start.Name && s.sentStanzas[id].ctx == ctx
+//@   ensures[C06] !has(s.sentStanzas, id)
+//@   ensures[C06] result1 != nil ==> result0 == nil
